@@ -626,7 +626,10 @@ class Executor(Engine, ExprMixin, StmtMixin, CallMixin):
         """Generate all obligations for contract c against the real function body."""
         if c.qual.startswith('c:'):
             from . import cfront, cruntime
-            fnode = cfront.translate(c.cfile, c.qual[2:], getattr(c.module, 'C_CONSTANTS', None))
+            cc = getattr(c.module, 'C_CONSTANTS', None)
+            if callable(cc):
+                cc = cc()
+            fnode = cfront.translate(c.cfile, c.qual[2:], cc)
             mod = types.ModuleType('c_translation_unit')
             for k2, v2 in vars(cruntime).items():
                 if k2.startswith('__') and not k2.endswith('__') or k2 in ('Cell',):
